@@ -81,7 +81,7 @@ func checkC17(c *Ctx) {
 	c.Rule(G1, "wire-sized allocation dominated by the size limit", 1)
 	c.Rule(W1, "single writer per connection", 4)
 	c.Rule(P1, "no peer-induced panic on the sending side", 1)
-	c.Rule(O1, "failed write/handshake closes and clears the connection on that arm", 3)
+	c.Rule(O1, "failed write/handshake closes and clears the connection on that arm", 2)
 
 	// ------------------------------------------------------------------ B1 reader side
 	rf := readFullCalls(readMsg)
@@ -181,9 +181,9 @@ func checkC17(c *Ctx) {
 	}
 	c.Check(okLen, B1, FuncName(readMsg), "length field", m.Pos(payloadRd.Pos()), "reader: 4 bytes at prefix[1:5], same byte order as the writer's len(msg.data)", "length field disagrees: "+why)
 	// prefix size = 1 + 4 on both sides; writer's header = prefix + len(topic)
-	okPrefix := prefixLen == 5
+	okPrefix := prefixLen == 5 && has0
 	for _, in := range instrsOf(send) {
-		if ms, ok := in.(*ssa.MakeSlice); ok {
+		if ms, ok := in.(*ssa.MakeSlice); ok && has0 && bufferRoot(ms) == w0.Buf {
 			l := linOf(ms.Len)
 			if !(l.K == prefixLen && len(l.Terms) == 1) {
 				okPrefix = false
@@ -218,22 +218,39 @@ func checkC17(c *Ctx) {
 		}
 	}
 	c.Check(okTopic && ok32, B1, FuncName(send), "topic placement and size", m.Pos(send.Pos()), "writer: copy(header[5:], topic) with len(topic) ∈ {0,32}; reader: 32 bytes right after the prefix", "topic region disagrees between writer and reader")
-	// writer order: header before data, data is msg.data
-	var wHeader, wData *ssa.Call
-	for _, in := range instrsOf(send) {
-		cl, ok := in.(*ssa.Call)
-		if !ok {
-			continue
+	// writer side, as a byte stream: on every path of send on which all writes succeed, what goes to the
+	// connection is the whole header followed by the whole of msg.data, whatever the number of Write calls
+	// or intermediate buffers
+	if has0 {
+		le := &lenEnv{fn: send, pkgFns: netFns}
+		se := &streamEnv{le: le, header: w0.Buf, isData: func(v ssa.Value) bool { return isLoadOfField(v, fData) }}
+		isWrite := func(cl *ssa.Call) (ssa.Value, bool) {
+			if o := calleeObj(&cl.Call); o != nil && o.Name() == "Write" && len(cl.Call.Args) == 2 && isLoadOfField(cl.Call.Args[0], fConn) {
+				return cl.Call.Args[1], true
+			}
+			return nil, false
 		}
-		if o := calleeObj(&cl.Call); o != nil && o.Name() == "Write" && isLoadOfField(cl.Call.Args[0], fConn) {
-			if isLoadOfField(cl.Call.Args[1], fData) {
-				wData = cl
-			} else {
-				wHeader = cl
+		paths := se.streamPaths(isWrite)
+		bad := ""
+		for _, p := range paths {
+			if !(len(p) == 2 && p[0].Src == "header" && p[0].Complete && p[1].Src == "data" && p[1].Complete) {
+				bad = segsString(p)
+				break
 			}
 		}
+		if len(paths) == 0 {
+			bad = "no path on which all writes succeed reaches the return"
+		}
+		c.Check(bad == "", B1, FuncName(send), "bytes put on the connection", m.Pos(send.Pos()), fmt.Sprintf("%d success path(s): header ++ msg.data, each complete", len(paths)),
+			"on some path send puts on the connection: "+bad+" — not the whole header followed by the whole payload, so the receiver (which reads exactly the announced length) is desynchronised or gets a modified message")
+		// every copy in the framing code is complete
+		for _, cp := range builtinCalls(send, "copy") {
+			ok, why := le.copyComplete(cp)
+			c.Check(ok, B1, FuncName(send), "copy complete: "+render(cp.Call.Args[1]), m.Pos(cp.Pos()), why, "a copy in the framing code may silently truncate: "+why)
+		}
+	} else {
+		c.Bad(B1, FuncName(send), "bytes put on the connection", m.Pos(send.Pos()), "header buffer not identified")
 	}
-	c.Check(wHeader != nil && wData != nil && instrDominates(wHeader, wData), B1, FuncName(send), "header written before payload", m.Pos(send.Pos()), "conn.Write(header) dominates conn.Write(msg.data)", "the payload is not written right after the header on the same connection")
 
 	// handshake length prefix
 	hw := encoderWrites(hsWrite)
